@@ -31,6 +31,8 @@ impl Byte {
         len: usize,
     ) -> io::Result<Cow<'de, [u8]>> {
         match self {
+            // Empty blocks are not written, and taking nothing needs no block.
+            Self::External { .. } if len == 0 => Ok(Cow::from(&[][..])),
             Self::External { block_content_id } => {
                 let src = external_data_readers
                     .get_mut(block_content_id)
